@@ -11,7 +11,7 @@ import build as B
 import common as H
 import sercommon as S
 from common import Case
-from props.C12 import KINDS, UNIVS, valid_desc, falsy_descs, dw_descs, retarget_descs, equal_descs
+from props.C12 import KINDS, UNIVS, valid_desc, falsy_descs, dw_descs, retarget_descs, equal_descs, text_descs
 
 KMS = ["true", "false", "custom"]
 VMS = ["true", "false", "custom"]
@@ -44,7 +44,7 @@ class Prop:
             "ids x str/unicode/value-hashed/identity-hashed/int/tuple/dataclass/DictWrapper data, plus seeded random trees up to 12 nodes.  "
             "One case = one tree x one (key_map, value_map) in {default, off, custom}^2 (quick tier: one or two pairs per tree; thorough tier: three pairs per tree, all nine for every fifth tree) x mapper "
             "style {none, callback, derived class}; inside every case REAL files are written and read through all transports: StringIO, "
-            "open text file, str path and Path with compression in {False, True, STORED, DEFLATED, BZIP2, LZMA}; the written text must be "
+            "open text file (utf8, ascii, latin-1, utf-16), str path and Path with compression in {False, True, STORED, DEFLATED, BZIP2, LZMA}; the written text must be "
             "the same for all transports (it is the model's save_doc), every loaded tree must be iso to the source (independent Python "
             "iso); further per case: deserialize mappers that CONSUME their dict (callback and derived class) give the same tree; one meta dict "
             "reused by two saves with different options stays untouched and the second file has no stale maps; a HISTORY on one tree object "
@@ -106,6 +106,7 @@ class Prop:
         yield from dw_descs(tier, rng)
         yield from retarget_descs(tier, rng)
         yield from equal_descs(tier, rng)
+        yield from text_descs(tier, rng)
         combos = [(k, v) for k in KMS for v in VMS]
         i = 0
         for td in self.tree_descs(tier, rng):
@@ -163,6 +164,21 @@ class Prop:
             rec("file stream", text, ld)
         except Exception as e:  # noqa: BLE001
             out.append(("file stream", e, None, {}))
+        # caller-opened text streams with other encodings: the JSON text is pure ASCII, so every encoding carries it
+        for enc in ("ascii", "latin-1", "utf-16"):
+            p = TMP / f"e_{enc}.json"
+            name = f"text stream opened with encoding={enc!r}"
+            try:
+                with open(p, "w", encoding=enc) as fp:
+                    tree.save(fp, **skw)
+                text = p.read_text(encoding=enc)
+
+                def lde(m, p=p, enc=enc):
+                    with open(p, "r", encoding=enc) as fp:
+                        return cls.load(fp, file_meta=m, **lkw)
+                rec(name, text, lde)
+            except Exception as e:  # noqa: BLE001
+                out.append((name, e, None, {}))
         # paths x compression
         for ci, comp in enumerate(COMPRESSIONS):
             for as_path in (False, True):
@@ -210,6 +226,10 @@ class Prop:
             else:
                 forest, hashes = S.obs_loaded_tree(t0, doc["nodes"])
                 obs = [[0, S.jv_sx(doc)], [0, [S.jv_sx(meta0), forest]]]
+        if isinstance(text0, str) and not text0.isascii() and not fail:
+            bad = next(c for c in text0 if ord(c) > 127)
+            fail = (f"text: the written JSON is not pure ASCII (character U+{ord(bad):04X} verbatim): it does not survive targets that are "
+                    f"not UTF-8, nor lone surrogates on a path target")
         for name, text, t2, meta in tr[1:]:
             if isinstance(text, Exception) or isinstance(text0, Exception):
                 if type(text) is not type(text0):
